@@ -1786,10 +1786,18 @@ impl Visitor for Checker {
                     let constraint_shape = constraint_expr.derive_shape(&mut self.symbol_table);
                     let narrowed = shape.narrow(&constraint_shape, &mut self.symbol_table);
                     if let Shape::TypeErr(pos, msg) = &narrowed {
+                        // A value or a constraint that is itself in error
+                        // keeps its position. A value that does not fit the
+                        // constraint is reported at the value, not where a
+                        // constraint given by name was defined.
+                        let pos = match (&shape, &constraint_shape) {
+                            (Shape::TypeErr(_, _), _) | (_, Shape::TypeErr(_, _)) => pos.clone(),
+                            _ => def.value.pos().clone(),
+                        };
                         self.err_stack.push(BuildError::with_pos(
                             msg.clone(),
                             ErrorType::TypeFail,
-                            pos.clone(),
+                            pos,
                         ));
                         return;
                     }
